@@ -90,7 +90,7 @@ def require_string_key(data):
                     f"Mapping keys must be str, not {type(key).__name__}"
                 )
             require_string_key(value)
-    elif switch_type == "NON_STR_SEQUENCE":
+    elif switch_type == "SEQUENCE":
         for value in data:
             require_string_key(value)
 
